@@ -297,6 +297,28 @@ func (c *Ctx) rulesC08(a *coreAnchors) {
 	if prepend != nil {
 		arg := prepend.(ssa.CallInstruction).Common().Args[1]
 		al, _ := arg.(*ssa.Alloc)
+		if call, ok := arg.(*ssa.Call); ok && al == nil {
+			// built by a private helper of recoverToErr that returns the literal
+			if callee := call.Call.StaticCallee(); callee != nil && len(callee.Blocks) > 0 && c.hostedBy(callee, rte) {
+				if rs := returnsOf(callee); len(rs) == 1 && len(retVals(rs[0])) == 1 {
+					al, _ = retVals(rs[0])[0].(*ssa.Alloc)
+				}
+			}
+		}
+		var fromRErr func(v ssa.Value, d int) bool
+		fromRErr = func(v ssa.Value, d int) bool {
+			return derives(v, func(x ssa.Value) bool {
+				if fieldOf(x) == fRErr || loadOfField(x) == fRErr {
+					return true
+				}
+				if p, ok := x.(*ssa.Parameter); ok && d < 3 {
+					if av := c.hostedArg(p, rte); av != x {
+						return fromRErr(av, d+1)
+					}
+				}
+				return false
+			})
+		}
 		calledOK, argsOK, addOK := false, false, false
 		_, vAdd, _ := c.constVal(pm, "MutationAdd")
 		fType := c.field(pm, "Mutation", "Type")
@@ -342,7 +364,7 @@ func (c *Ctx) rulesC08(a *coreAnchors) {
 								for _, r2 := range *a2.Referrers() {
 									if fa2, ok := r2.(*ssa.FieldAddr); ok && fieldOf(fa2) != nil && fieldOf(fa2).Name() == "Err" {
 										for _, r3 := range *fa2.Referrers() {
-											if st2, ok := r3.(*ssa.Store); ok && derivesFromField(st2.Val, fRErr) {
+											if st2, ok := r3.(*ssa.Store); ok && fromRErr(st2.Val, 0) {
 												argsOK = true
 											}
 										}
